@@ -385,6 +385,13 @@ def r18_5(ctx):
         if isinstance(r.value, ast.Name) and r.value.id in loop_assigned:
             raise AnalysisError(f"Palette.match: `{norm(r)}` returns a value maintained by an explicit search loop; R18.5 interprets min(range(..), key=..), list.index(min(..)) and min((distance, index) ..) only")
     if mincall is None and shape_b is None:
+        for r in rets:
+            v = r.value
+            if isinstance(v, ast.Name) and len(defs.get(v.id, [])) == 1:
+                v = defs[v.id][0]
+            if isinstance(v, ast.Call) and call_name(v) == "max":
+                ctx.violation(f.fq, short(r), f"{f.module.relpath}:{r.lineno}", f"Palette.match returns `{short(v)}`: the entry of MAXIMUM distance, not the nearest one")
+                return
         raise AnalysisError(f"Palette.match: the argmin over the palette is not written as min(range(..), key=..), list.index(min(..)), min((distance, index) ..) or min(enumerate(distances), key=second); returns: {[norm(r) for r in rets]}")
     ctx.check(not other, f.fq, "return min(...)", f.where, "match returns the result of builtin min (or a cached copy of it)",
               f"Palette.match returns something other than the builtin min(...) over the palette indices: {other}")
